@@ -163,14 +163,10 @@ def convStr (σ : State) (v : V) : String :=
   let ul := match toULong v with | some u => s!"{u}" | none => "u"
   s!"i={i} L={l} Q={ul} d={d} b={b01 (toBool v)} s={s}"
 
-/-- `p = Array<T>` / `p = Dic<T>` (`free(); NEW_ARRAY/NEW_DIC; resize/reserve(n); fill`): the target is REBOUND to a fresh container —
-the history `hidden = Var(x); p = hidden; hidden = Var()` of the model's own statements (same final heap: the fresh block with
-capacity `litCap n` and count 1 at the target, the old content released once) -/
+/-- `p = Array<T>` / `p = Dic<T>`: `AslModel.Var.assignFresh` with the hidden root as temporary -/
 def assignFresh (guard : Bool) (σ : State) (p : Path) (ctor : Op) : State × String :=
-  let σ1 := (applyOp guard σ ctor).1
-  let (σ2, r) := applyOp guard σ1 (.setV p { root := nslots, steps := [] })
-  let σ3 := (applyOp guard σ2 (.drop nslots)).1
-  (σ3, match r with | .ok _ => "ok" | .error e => errStr e)
+  let r := Var.assignFresh guard σ nslots p ctor
+  (r.1, match r.2 with | .ok _ => "ok" | .error e => errStr e)
 
 def step (σ : State) (ts0 : List String) : State × String :=
   let (guard, ts) := match ts0 with
